@@ -182,6 +182,24 @@ def gen_parked_stop(rng, sid):
     return sc
 
 
+def gen_parked_send_batch_stop(rng, sid):
+    """stop() while a send_batch() call is parked behind a queued (lingering or muted) batch of its partition: the call
+    either raises or returns a future that is resolved - never a future nobody will ever resolve"""
+    sc = prodsim.gen_scenario(rng, sid, n_faults=0)
+    sc["partitions"] = 1
+    sc["linger_ms"] = rng.choice([20, 50, 200])
+    sc["compression"] = None
+    sc["tasks"] = [[{"rid": 0, "p": 0, "sleep": 0, "ts": None, "size": 0, "hdr": False}],
+                   [{"send_batch": [1, 2], "p": 0, "sleep": rng.choice([0.0005, 0.001, 0.003])}],
+                   [{"send_batch": [3], "p": 0, "sleep": rng.choice([0.001, 0.004])}]][:rng.choice([2, 3])]
+    sc["migrations"] = []
+    sc["leaderless"] = []
+    sc["faults"] = {}
+    sc["stop_after"] = rng.choice([0.002, 0.005, 0.01, 0.015])
+    sc["stop_early"] = True
+    return sc
+
+
 PRODUCE_RETRIABLE = [3, 5, 6, 7, 19, 20, 56]      # = kafka_produce_retriable of proof/C02_dispatch.v
 
 
@@ -353,6 +371,8 @@ def run(ck: Check):
         scs.append(gen_cancelled_futures(rng, 300000 + i))
     for i in range(ck.n(40, 400)):
         scs.append(gen_rejected_records(rng, 400000 + i))
+    for i in range(ck.n(16, 150)):
+        scs.append(gen_parked_send_batch_stop(rng, 500000 + i))
     rng_old = random.Random(ck.seed * 7121 + 202)
     for i in range(ck.n(30, 300)):
         sc = gen(rng_old, 700000 + i)
